@@ -26,6 +26,8 @@ func TestCheck(t *testing.T) {
 	}
 	run := mc.Start(prop)
 	switch prop {
+	case "C03":
+		exitCode = runC03read(t, run)
 	case "C01":
 		exitCode = runC01parser(t, run)
 	case "C14":
